@@ -85,6 +85,12 @@ def make_cleanup(plan, cid, raises):
 def make_hooks(plan):
     def make(name):
         def hook(context, *args):
+            from . import disklib
+            current = disklib.CURRENT_PLAN
+            if current is not None and current is not plan:
+                # a hook function of an EARLIER run (another environment file) is called in this run
+                current.notes.append({"kind": "stale-hook", "hook": name})
+                return
             if name in ("before_tag", "after_tag"):
                 ident = str(args[0])
             elif args:
@@ -494,6 +500,8 @@ def run_program(program, formatters=None, reporters=None, features=None, config=
     normalize(program)
     reset_globals()
     plan = Plan(program)
+    from . import disklib as _disklib
+    _disklib.CURRENT_PLAN = plan
     if observers:
         plan.observers.extend(observers)
     for feat in program["features"]:
